@@ -1,5 +1,6 @@
 #!/bin/bash
 # tools/seedrun.sh <patch.diff> <PROP> [PROP...]: run the registered quick checks for PROPs against a scratch copy of /repo with the patch applied
+[ "$MREPO_LOCKED" = 1 ] || { export MREPO_LOCKED=1; exec flock /tmp/mrepo.lock "$0" "$@"; }
 PATCH=$1; shift
 rm -rf /tmp/mrepo; rsync -a --exclude target --exclude .git /repo/ /tmp/mrepo/
 (cd /tmp/mrepo && git apply --unsafe-paths --directory=/tmp/mrepo $PATCH 2>/dev/null || patch -p1 -s < $PATCH) || { echo "PATCH FAILED"; exit 3; }
